@@ -56,7 +56,7 @@ Section WithDigest.
       /\ rs_sel st <> []
       /\ MetaText.make_items H (rc_audit cfg) (rc_algo cfg) None (filter_desc cfg) (map uuid_of (rs_sel st)) = Ok (rs_md st).
   Proof.
-    unfold run_prepare. intros Hr. cbv zeta in Hr.
+    unfold run_prepare, prepare_from. intros Hr. cbv zeta in Hr.
     destruct (price_setup cfg p) as [[f [lk db]]|c] eqn:Ep; cbn [res_bind] in Hr; [|discriminate].
     destruct (load cfg j) as [js|c] eqn:El; cbn [res_bind] in Hr; [|discriminate].
     destruct (MetaText.make_items H (rc_audit cfg) (rc_algo cfg) None (filter_desc cfg) (map uuid_of (run_filter cfg js)))
@@ -297,7 +297,7 @@ Section Main.
               /\ exists rs, Forall2 (fun k r => report_text H cfg st k = Some r) (rc_targets cfg) rs
                             /\ out = console_text (rs_md st) rs)).
   Proof.
-    unfold run_console. destruct (run_prepare H cfg j p) as [st|c]; cbn [res_bind]; [|discriminate].
+    unfold run_console, console_of, console_with. destruct (run_prepare H cfg j p) as [st|c]; cbn [res_bind]; [|discriminate].
     intros Hr. exists st. split; [reflexivity|].
     destruct (rc_targets cfg) as [|k ks] eqn:Et.
     - left. inversion Hr. split; reflexivity.
@@ -446,6 +446,39 @@ Section Main.
   Qed.
 
   (* ================================================================ file mode *)
+  Lemma files_with_structure cfg md rt xf files ann : files_with cfg md rt xf = Ok (files, ann) ->
+    exists reps exps,
+      Forall2 (fun k r => rt k = Some r) (rc_targets cfg) reps
+      /\ Forall2 (fun x c => xf x = Some c) (rc_exports cfg) exps
+      /\ files = map (fun kr => (file_name cfg (kind_name (fst kr)) ext_txt, MetaText.file_head md ++ snd kr))
+                     (combine (rc_targets cfg) reps)
+                 ++ map (fun xc => (file_name cfg (export_name (fst xc)) ext_txn, snd xc)) (combine (rc_exports cfg) exps)
+      /\ ann = concat (map (fun k => announce (kind_label k) (file_path cfg (file_name cfg (kind_name k) ext_txt))) (rc_targets cfg))
+               ++ concat (map (fun x => announce (export_label x) (file_path cfg (file_name cfg (export_name x) ext_txn)))
+                              (rc_exports cfg)).
+  Proof.
+    unfold files_with.
+    destruct (mapO (report_entry_with cfg md rt) (rc_targets cfg)) as [rs|] eqn:Er; [|discriminate].
+    destruct (mapO (export_entry_with cfg xf) (rc_exports cfg)) as [xs|] eqn:Ex; [|discriminate].
+    intros Hr. inversion Hr; subst files ann. clear Hr.
+    pose (gr := fun (k : MetaText.report_kind) (c : list N) =>
+                  (file_name cfg (kind_name k) ext_txt, c, announce (kind_label k) (file_path cfg (file_name cfg (kind_name k) ext_txt)))).
+    pose (gx := fun (x : export_kind) (c : list N) =>
+                  (file_name cfg (export_name x) ext_txn, c, announce (export_label x) (file_path cfg (file_name cfg (export_name x) ext_txn)))).
+    change (mapO (fun k => option_map (gr k) (option_map (fun r => MetaText.file_head md ++ r) (rt k))) (rc_targets cfg) = Some rs) in Er.
+    change (mapO (fun x => option_map (gx x) (xf x)) (rc_exports cfg) = Some xs) in Ex.
+    destruct (mapO_option_map _ _ _ _ Er) as (cs & HFc & ->).
+    destruct (mapO_option_map _ _ _ _ Ex) as (exps & HFx & ->).
+    destruct (Forall2_option_map _ _ _ _ HFc) as (reps & HFr & ->).
+    exists reps, exps. split; [exact HFr|]. split; [exact HFx|]. split.
+    - rewrite map_app, !map_map, combine_map_r, map_map. reflexivity.
+    - rewrite map_app, concat_app, !map_map. cbn [snd gr gx].
+      rewrite combine_map_r, map_map. cbn [fst snd].
+      rewrite (map_fst_combine (fun k => announce (kind_label k) (file_path cfg (file_name cfg (kind_name k) ext_txt))) _ _ _ HFr).
+      rewrite (map_fst_combine (fun x => announce (export_label x) (file_path cfg (file_name cfg (export_name x) ext_txn))) _ _ _ HFx).
+      reflexivity.
+  Qed.
+
   Lemma files_structure cfg j p files ann : run_files H cfg j p = Ok (files, ann) ->
     exists st reps exps,
       run_prepare H cfg j p = Ok st
@@ -459,30 +492,12 @@ Section Main.
                               (rc_exports cfg))
       /\ (rc_targets cfg <> [] -> run_console H cfg j p = Ok (console_text (rs_md st) reps)).
   Proof.
-    unfold run_files. destruct (run_prepare H cfg j p) as [st|c] eqn:Ep; cbn [res_bind]; [|discriminate].
-    destruct (mapO (report_entry H cfg st) (rc_targets cfg)) as [rs|] eqn:Er; [|discriminate].
-    destruct (mapO (export_entry H cfg st) (rc_exports cfg)) as [xs|] eqn:Ex; [|discriminate].
-    intros Hr. inversion Hr; subst files ann. clear Hr.
-    pose (gr := fun (k : MetaText.report_kind) (c : list N) =>
-                  (file_name cfg (kind_name k) ext_txt, c, announce (kind_label k) (file_path cfg (file_name cfg (kind_name k) ext_txt)))).
-    pose (gx := fun (x : export_kind) (c : list N) =>
-                  (file_name cfg (export_name x) ext_txn, c, announce (export_label x) (file_path cfg (file_name cfg (export_name x) ext_txn)))).
-    change (mapO (fun k => option_map (gr k) (report_file H cfg st k)) (rc_targets cfg) = Some rs) in Er.
-    change (mapO (fun x => option_map (gx x) (export_file H cfg st x)) (rc_exports cfg) = Some xs) in Ex.
-    destruct (mapO_option_map _ _ _ _ Er) as (cs & HFc & ->).
-    destruct (mapO_option_map _ _ _ _ Ex) as (exps & HFx & ->).
-    unfold report_file in HFc. destruct (Forall2_option_map _ _ _ _ HFc) as (reps & HFr & ->).
-    exists st, reps, exps. split; [reflexivity|]. split; [exact HFr|]. split; [exact HFx|].
-    split; [|split].
-    - rewrite map_app, !map_map, combine_map_r, map_map. reflexivity.
-    - rewrite map_app, concat_app, !map_map. cbn [snd gr gx].
-      rewrite combine_map_r, map_map. cbn [fst snd].
-      rewrite (map_fst_combine (fun k => announce (kind_label k) (file_path cfg (file_name cfg (kind_name k) ext_txt))) _ _ _ HFr).
-      rewrite (map_fst_combine (fun x => announce (export_label x) (file_path cfg (file_name cfg (export_name x) ext_txn))) _ _ _ HFx).
-      reflexivity.
-    - intros Hne. unfold run_console. rewrite Ep. cbn [res_bind].
-      destruct (rc_targets cfg) as [|k ks] eqn:Et; [contradiction|].
-      rewrite (Forall2_mapO _ _ _ HFr). reflexivity.
+    unfold run_files, files_of. destruct (run_prepare H cfg j p) as [st|c] eqn:Ep; cbn [res_bind]; [|discriminate].
+    intros Hr. destruct (files_with_structure _ _ _ _ _ _ Hr) as (reps & exps & HFr & HFx & Hf & Ha).
+    exists st, reps, exps. split; [reflexivity|]. split; [exact HFr|]. split; [exact HFx|]. split; [exact Hf|]. split; [exact Ha|].
+    intros Hne. unfold run_console, console_of, console_with. rewrite Ep. cbn [res_bind].
+    destruct (rc_targets cfg) as [|k ks] eqn:Et; [contradiction|].
+    rewrite (Forall2_mapO _ _ _ HFr). reflexivity.
   Qed.
 
   (* ================================================================ layout of the journal text *)
